@@ -53,9 +53,11 @@ func (self *Compiler) compileFn(node ast.AnalyzedFunctionDefinition) (annotation
 	defer self.popScope()
 
 	// Try blocks and loops of an enclosing function (this one may be a closure literal) are none of this function's business.
-	outerTryDepth, outerLoops := self.tryDepth, self.loops
+	outerTryDepth, outerLoops, outerReturnsValue := self.tryDepth, self.loops, self.fnReturnsValue
 	self.tryDepth, self.loops = 0, make([]Loop, 0)
-	defer func() { self.tryDepth, self.loops = outerTryDepth, outerLoops }()
+	// A function of result type `null` hands nothing to its caller (a call of it leaves nothing on the stack).
+	self.fnReturnsValue = node.ReturnType.Kind() != ast.NullTypeKind
+	defer func() { self.tryDepth, self.loops, self.fnReturnsValue = outerTryDepth, outerLoops, outerReturnsValue }()
 
 	// Compile annotations.
 	if node.Annotation != nil {
@@ -169,7 +171,7 @@ func (self *Compiler) compileFn(node ast.AnalyzedFunctionDefinition) (annotation
 	cleanupLabel := self.mangleLabel("cleanup")
 	self.CurrFn().CleanupLabel = cleanupLabel
 
-	self.compileBlock(node.Body, false)
+	self.compileBlockWant(node.Body, false, self.fnReturnsValue)
 
 	varCnt := int64(self.CurrFn().CntVariables)
 	self.CurrFn().Instructions[mpIdx] = newOneIntInstruction(Opcode_AddMempointer, varCnt)
